@@ -450,6 +450,23 @@ func Facts(repo string) (string, error) {
 	}
 	fmt.Fprintf(&sb, "/-- (attribute namespace, local name, value) ↦ what the real `Info.FromStartElement` records for a start\nelement with that single attribute: ([xmlns, to, from, id, lang], major, minor) -/\ndef attrGrid : Option (List (String × String × String × Option (List String × Nat × Nat))) := some [\n  %s]\n\n", strings.Join(grows, ",\n  "))
 
+	// ---- 3c. round F: FromStartElement on an ESTABLISHED Info: empty / new / invalid value per attribute ----
+	var krows []string
+	for _, sp := range []string{"", "urn:example:x", "http://www.w3.org/XML/1998/namespace"} {
+		for _, lo := range []string{"to", "from", "id", "xmlns", "version", "lang"} {
+			for _, v := range []string{"", "new.example", "a@@b", "1.0"} {
+				info := stream.Info{XMLNS: "jabber:client", To: jid.MustParse("est.example"), From: jid.MustParse("u@est.example/r"), ID: "old", Lang: "en", Version: stream.Version{Major: 1, Minor: 0}}
+				err := info.FromStartElement(xml.StartElement{Attr: []xml.Attr{{Name: xml.Name{Space: sp, Local: lo}, Value: v}}})
+				res := "none"
+				if err == nil {
+					res = fmt.Sprintf("some ([%s, %s, %s, %s, %s], %d, %d)", leanStr(info.XMLNS), leanStr(info.To.String()), leanStr(info.From.String()), leanStr(info.ID), leanStr(info.Lang), info.Version.Major, info.Version.Minor)
+				}
+				krows = append(krows, fmt.Sprintf("(%s, %s, %s, %s)", leanStr(sp), leanStr(lo), leanStr(v), res))
+			}
+		}
+	}
+	fmt.Fprintf(&sb, "/-- (attribute namespace, local name, value) ↦ what the real `Info.FromStartElement` leaves in an ESTABLISHED\nstream information (xmlns=jabber:client to=est.example from=u@est.example/r id=old lang=en version=1.0) -/\ndef attrKeepGrid : Option (List (String × String × String × Option (List String × Nat × Nat))) := some [\n  %s]\n\n", strings.Join(krows, ",\n  "))
+
 	// ---- 4. shared mutable state of the bind feature ----
 	names, ok, aerr := astfacts.SharedWrites(filepath.Join(repo, "bind.go"), "bind")
 	sb.WriteString("/-- variables of `bind` (bind.go) written (or address-taken) inside the closures of the feature it returns -/\n")
